@@ -64,6 +64,10 @@ def attrJ : Attr → Json
   | .clsBound c n g => jArr ([jStr "clsBound", jNat c] ++ nameJ n ++ [jNat g])
   | .obj o => jArr [jStr "obj", jNat o]
   | .typeArg x => jArr [jStr "typeArg", targJ x]
+  | .typeVars => jArr [jStr "typeVars"]
+  | .className => jArr [jStr "className"]
+  | .instFn f g => jArr [jStr "instFn", jNat f, jNat g]
+  | .nameStr n => jArr ([jStr "nameStr"] ++ nameJ n)
 
 def dictJ (d : Dict) : Json :=
   jArr (d.map fun kd => jArr [jNat kd.1, jArr (kd.2.map fun av => jArr [attrJ av.1, jNat av.2])])
@@ -84,7 +88,9 @@ def enumOfJ (j : Json) (x : TArg) : Option EnumDesc :=
   | .ty i =>
     (jL j).findSome? fun e =>
       if jN (jAt e 0) = i then
-        some { members := (jL (jF (jAt e 1) "members")).map jN, clsAttrs := (jL (jF (jAt e 1) "clsattrs")).map kvOf }
+        some { members := (jL (jF (jAt e 1) "members")).map jN,
+               intr := { cls := (jL (jF (jAt e 1) "clsattrs")).map kvOf, str := (jL (jF (jAt e 1) "strattrs")).map kvOf,
+                         dict := (jL (jF (jAt e 1) "dictattrs")).map kvOf, fn := (jL (jF (jAt e 1) "fnattrs")).map kvOf } }
       else none
 
 /-- journals of every function definition of the user classes: what each transformation received -/
@@ -94,6 +100,12 @@ def journals (user : Table) (f : List App → List (List Arg)) : Json :=
       match p.2 with
       | .func _ apps => some (jArr ([jNat (ci.2 + libTable.length)] ++ nameJ p.1 ++ [callsJ (f apps)]))
       | _ => none)
+
+/-- an entry of the instance `__dict__`: `[unders, stem, ["fn", fid, apps]]` | `[unders, stem, ["obj", oid, attrs]]` -/
+def instEntryOf (confs : Confs) (j : Json) : PedVerif.Mixins.Name × InstVal :=
+  (⟨jN (jAt j 0), jS (jAt j 1)⟩,
+   let v := jAt j 2
+   if jTag v == "fn" then .fn (jN (jAt v 1)) ((jL (jAt v 2)).map (appOfC confs)) else .obj (jN (jAt v 1)) ((jL (jAt v 2)).map kvOf))
 
 def origOf (j : Json) : Option (List TArg) := if jIsNull j then none else some ((jL j).map targOf)
 
@@ -106,18 +118,24 @@ def issubConsistent (t : Table) (d : Nat) : Bool :=
 def handleHistory (t : Table) (d : Nat) (c : Json) : Json :=
   let insts : List (Nat × Option (List TArg)) := (jL (jF c "insts")).map fun j => (jN (jAt j 0), origOf (jAt j 1))
   let qs : List (Nat × Option (List TArg)) := (jL (jF c "qs")).filterMap fun j => insts[jN j]?
-  let answers := runQueries t d qs
+  -- the world is threaded through: a model instantiated with a source that writes state answers `null` (no prediction) from the
+  -- second query on
+  let answers := runQueriesW t d [] qs
   mkObj [("hist", jArr ((qs.zip answers).map fun qa =>
             let e := expectedOutcome t d qa.1.1 qa.1.2
-            mkObj [("model", resJ pairsJ qa.2), ("spec", expectJ e), ("kind", kindJ (kindOf t d qa.1.1)),
-                   ("type_var", resJ targJ (typeVar qa.2)),
+            mkObj [("model", match qa.2 with | some r => resJ pairsJ r | none => Json.null), ("spec", expectJ e),
+                   ("kind", kindJ (kindOf t d qa.1.1)),
+                   ("type_var", match qa.2 with | some r => resJ targJ (typeVar r) | none => Json.null),
                    ("spec_type_var", match expectedTypeVar e with | some x => targJ x | none => Json.null)])),
+         ("left_behind", jArr (leftBehind.map jStr)),
          ("mros", jArr (insts.map fun i => jArr ((lin t d i.1).map jNat))),
          ("issub_ok", jBool (issubConsistent t d))]
 
 /-- case: {"k": "generic"|"decorated"|"history", "table": [user classes…] (ids start after the library classes; a class may carry
     "cgi" / "eq" flags that only the Python side reads), "cls": id, "orig": null | [type args],
-    "enums": [[type id, {"members": [...], "clsattrs": [[k, v]…]}]…], "confs": [[type, value, transformation]…] (the factory calls
+    "enums": [[type id, {"members": [...], "clsattrs" / "strattrs" / "dictattrs" / "fnattrs": [[k, v]…]}]…] (what the enum class, a str, a dict,
+    a function carry by themselves under the names that are values of members), "inst": [[unders, stem, ["fn", fid, apps] | ["obj", oid, attrs]]…]
+    (the instance `__dict__`), "confs": [[type, value, transformation]…] (the factory calls
     `factory(value)` of the program in the order in which they are made; applications refer to them as ["conf", k]); history: "insts": [[cls, orig]…], "qs": [index…]} -/
 def handle (c : Json) : Json :=
   let confs : Confs := (jL (jF c "confs")).map appOf
@@ -138,14 +156,17 @@ def handle (c : Json) : Json :=
     let mro := lin t d cls
     -- the spec side is driven by the *expected* type argument, never by the model's answer
     let specEnum : Option EnumDesc := (expectedTypeVar e).bind enumOf
-    let (members, clsAttrs) : List Key × List (Key × Val) :=
+    let (members, ia) : List Key × Intr :=
       match specEnum with
-      | some en => (en.members, en.clsAttrs)
-      | none => ([], [])
+      | some en => (en.members, en.intr)
+      | none => ([], {})
+    let inst : InstNs := (jL (jF c "inst")).map (instEntryOf confs)
     mkObj (common ++ [
-      ("deco", resJ dictJ (getDecorated t d cls orig enumOf)),
-      ("spec_deco", if specEnum.isSome then specDictJ (expectedDecorated t mro members) else Json.null),
-      ("guard", jBool (specEnum.isSome && decoGuard t mro members clsAttrs)),
+      ("deco", resJ dictJ (getDecorated t d cls orig enumOf inst)),
+      ("spec_deco", if specEnum.isSome then specDictJ (expectedDecorated t mro members (inst.map (·.1))) else Json.null),
+      ("guard", jBool (specEnum.isSome && decoGuard t mro members ia inst)),
+      ("regions", jArr ((guardRegions t mro members ia inst).eraseDups.map jStr)),
+      ("closures_modelled", jBool closuresKeepTheirArgument),
       ("calls", journals user fun apps => (applyApps apps).journal),
       ("spec_calls", journals user (expectedCalls 0))])
   else mkObj common
